@@ -12,7 +12,7 @@ mod values;
 use crate::core::{Cx, Tier};
 
 fn usage() -> ! {
-    eprintln!("usage: tvh run <ID> [--tier quick|thorough] [--seed N] [--shard I --nshards N] [--start K] [--only K] [--scale F] [--out FILE] [--status FILE] [--log FILE] [--dump] [--case-budget-ms N]");
+    eprintln!("usage: tvh run <ID> [--tier quick|thorough] [--seed N] [--shard I --nshards N] [--start K] [--only K] [--scale F] [--out FILE] [--status FILE] [--log FILE] [--dump] [--case-budget-ms N] [--mem-mb N] [--stack-mb N]");
     std::process::exit(2)
 }
 
@@ -34,6 +34,7 @@ fn main() {
     let mut i = 3;
     let mut budget: Option<u64> = None;
     let mut mem_mb: u64 = 8192;
+    let mut stack_mb: usize = 8;
     while i < args.len() {
         let a = args[i].as_str();
         let mut val = || {
@@ -57,6 +58,9 @@ fn main() {
             "--dump" => cx.dump = true,
             "--case-budget-ms" => budget = Some(val().parse().unwrap_or_else(|_| usage())),
             "--mem-mb" => mem_mb = val().parse().unwrap_or_else(|_| usage()),
+            // sanitizer legs only: instrumented frames are several times larger, so depth verdicts (which belong to the
+            // optimised build on 8 MiB) are taken out of the picture by a very large stack
+            "--stack-mb" => stack_mb = val().parse().unwrap_or_else(|_| usage()),
             _ => usage(),
         }
         i += 1;
@@ -79,7 +83,7 @@ fn main() {
     // so depth-related verdicts do not depend on the caller's ulimit.
     let handle = std::thread::Builder::new()
         .name("workload".into())
-        .stack_size(8 << 20)
+        .stack_size(stack_mb << 20)
         .spawn(move || {
             let known = props::run(&id, &mut cx);
             if !known {
